@@ -244,6 +244,22 @@ Section Structure.
     - intros Hm Ha. rewrite (H2 Hm Ha). reflexivity.
     - intros Hm Hp Hw. rewrite (H3 Hm Hp Hw). reflexivity.
   Qed.
+  Theorem total_clustering_weighted_partial : forall (g : gstate) nn cz, WF g ->
+    (multi (sp g) = true ->
+       clustering_weighted teqb g nn = Err WrongMethod /\
+       average_clustering_weighted teqb g nn cz = Err WrongMethod) /\
+    (multi (sp g) = false -> some_absent g nn ->
+       clustering_weighted teqb g nn = Err NodeNotFound /\
+       average_clustering_weighted teqb g nn cz = Err NodeNotFound) /\
+    (multi (sp g) = false -> all_present g nn -> edges_have_weight g = false ->
+       clustering_weighted teqb g nn = Err EdgeWeightNotSpecified /\
+       average_clustering_weighted teqb g nn cz = Err EdgeWeightNotSpecified).
+  Proof.
+    intros g nn cz W.
+    destruct (total_clustering_weighted_guards g nn W) as (A1 & A2 & A3).
+    destruct (total_average_clustering_weighted_guards g nn cz W) as (B1 & B2 & B3).
+    repeat split; auto.
+  Qed.
 End Structure.
 
 (* ====================================================================================== *)
